@@ -56,6 +56,10 @@ STD_CELLS = [
     ("pool-2", "G2u", {"n_pool": 2}),
     ("capped-300", "G2u", {"max_iteration": 300}),
     ("prior-sampling", "G2u", {"prior_sampling": True}),
+    ("prior-sampling-checkpointing", "G2u", {"prior_sampling": True, "checkpointing": True}),
+    # proposal parameter order differs from the model's (only the second parameter is named, the first is appended by default) on a model without exchange symmetry
+    ("asym-reordered-reparam", "G2a", {"reparameterisations": {"x1": "default"}}),
+    ("asym-reordered-logit-zscore", "G2a", {"reparameterisations": {"x1": "logit", "x0": "zscore"}}),
     ("tolerance-tight", "G2u", {"stopping": 1e-3, "max_iteration": 1500}),
     ("tolerance-loose", "G2u", {"stopping": 0.5}),
 ]
@@ -63,7 +67,7 @@ STD_CELLS = [
 QUICK_STD = ["default-G2u", "default-G4u", "nonuniform-analytic", "nonuniform-rejection-box-draws", "constrained-prior", "constrained-prior-leaky-uninformed", "flat-direction-prime-prior", "bimodal-default", "ties-nlive50", "ties-analytic", "gw-proposal", "clustering", "augmented-marginalised", "augmented", "no-uninformed",
              "latent-nball", "latent-gaussian", "latent-flow", "radius-worst-point", "radius-min-max", "truncate-log-q", "accumulate-weights", "drawsize-small",
              "reparam-logit", "reparam-inversion-split", "reparam-inversion-duplicate", "reparam-angle", "flow-maf", "flow-nsf", "nlive-10", "nlive-300",
-             "memory", "reset-weights", "uninformed-50", "shrinkage-t", "pool-2", "capped-300", "prior-sampling", "tolerance-loose"]
+             "memory", "reset-weights", "uninformed-50", "shrinkage-t", "pool-2", "capped-300", "prior-sampling", "prior-sampling-checkpointing", "asym-reordered-reparam", "asym-reordered-logit-zscore", "tolerance-loose"]
 
 
 GEN_AXES = dict(
